@@ -83,8 +83,8 @@ theorem query_simW (strict : Bool) (cfg : Cfg) (hcfg : cfg.engine = false) (gr :
       (solve cfg.uf (programOf gr) n (b.tr l (.var k) (k + 1)).1 ⟨[], k + 1 + b.nhid⟩)
       (den cfg gr n true b ⟨[], k + 1⟩ l) := by
   have hrel : BodyRel (World.init k b.nhid).Eq b b := by
-    have := rename_bodyRel strict (W := World.init k b.nhid) (oS := 0) (oD := 0)
-      (fun v hv => World.init_var k b.nhid v hv) b hb hbk
+    have := rename_bodyRel (W := World.init k b.nhid) (oS := 0) (oD := 0)
+      (fun v hv => World.init_var k b.nhid v hv) b hbk
     rwa [rename_zero] at this
   exact level_simW strict cfg hcfg gr hgr n b hb b (World.init k b.nhid) hrel true l l k (k + 1)
     (World.init_pre k l b.nhid hlk)
@@ -314,7 +314,7 @@ theorem okB_ok (strict : Bool) (b : Body) (h : b.okB = true) : b.ok strict = tru
     simp only [Body.okB, Bool.not_eq_true'] at h
     have hf : f ≠ "call" := by intro e; subst e; simp [special] at h
     simp [Body.ok, ntOK, hf, h]
-  | block g => exact blockGoal_goalOK h
+  | block g => simp [Body.ok, blockGoal_goalOK h]
   | _ => simp_all [Body.okB, Body.ok]
 
 theorem Rule.okC_good {strict : Bool} {r : Rule} (h : r.okC strict = true) : GoodRuleW strict r := by
